@@ -377,6 +377,21 @@ class C01(Prop):
                 if not (0 <= k < len(chunks) and 0 <= j < len(chunks[k]) and sum(lens[:k]) + j == idx and chunks[k][j] == val
                         and flat[idx] == val):
                     return (f"chunk_local_index({idx}) = ({k},{j}) is not the chunk/position of global sample {idx} (value {val}) for chunk lengths {lens}", "chunk-local-index")
+            # two detectors alive at once, fed alternately (the other one gets the mirrored signal in other chunks): each must
+            # report what it reports alone (state kept on the class or the module instead of the object)
+            if len(chunks) >= 2 and len(sig) <= 40:
+                dA, recA = make(det)
+                dB, recB = make(det)
+                sc = 2.0 ** case.get("exp", 0)
+                other = [[-x for x in c] for c in chunks[::-1]]
+                for ca, cb in zip(chunks, other):
+                    dA.process(np.asarray(ca, dtype=np.float64) * sc)
+                    dB.process(np.asarray(cb, dtype=np.float64) * sc)
+                got = (list(np.asarray(recA.values_from, dtype=float) / sc), list(np.asarray(recA.values_to, dtype=float) / sc),
+                       list(np.asarray(dA.residuals, dtype=float) / sc), [int(x) for x in recA.index_from], [int(x) for x in recA.index_to])
+                want = (a["from"], a["to"], a["residuals"], a["ifrom"], a["ito"])
+                if got != want:
+                    return (f"a detector fed alternately with a second detector of the same class (chunk lengths {lens}) reports {got}, alone {want}", "chunk-dependence")
             # the same map asked DURING the feeding: after every chunk, for every sample fed so far (a recorder that remembers
             # the chunk limits of its first look-up - seeded change C01-m5 - answers the later ones from the old limits)
             d2, rec2 = make(det)
